@@ -179,3 +179,14 @@ PROPS["C04"] = {
     "not_proved": "immutability of the caller's buffer and the bufio.Reader pool are established on the implementation only",
     "assumptions": COMMON_ASSUME + ["sync.Pool.Get returns a previously Put value or New()", "bufio.Reader.Reset discards all state"],
 }
+
+PROPS["C06"] = {
+    "channels": [{"cmd": "run-c06", "kind": "race", "reps": 8}],
+    "cone": r"^MISMATCH (harness|driver)",
+    "level": "proof",
+    "data_obligations": ["disciplined Access.programs = true (programs extracted from mimetype.go / mime.go / tree.go on this run)"],
+    "rule": "a -race build of the harness: 6 reader goroutines (Detect + accessors, DetectReader, Lookup + accessors of the looked-up node) x 300 (thorough 6000) rounds against 2 writers (6 Extend calls: package level, on looked-up built-ins, on an earlier extension; caller-owned alias slices with spare capacity 0, 2, 4, 8; SetLimit cycling over {3072, 8, 0, 64}), repeated in 8 (thorough 32) processes at GOMAXPROCS 2/4/8/16; any `DATA RACE` report is a failure; every result must occur in the table a fresh sequential process produces for some (number of extensions applied, limit); non-trivial/distinct = entries of that table",
+    "proved": "mutual exclusion of the RWMutex model; discipline_excludes (every interleaving, any number of threads); the extracted entry points obey the discipline (regenerated obligation); sequences of calls",
+    "not_proved": "Go memory model, sync.Pool internals, scheduler, word tearing: not modelled; linearisation of results is checked on the implementation against the sequential oracle",
+    "assumptions": COMMON_ASSUME + ["sync.RWMutex and sync/atomic behave as specified", "the access extractor (harness/access.go) sees every access: fields reached through same-package calls are inlined; closures (detectors) are opaque"],
+}
